@@ -24,7 +24,7 @@ META = {
         "C13.P4 values are read at request time (value_type(current value) or the user's callback)",
         "C13.P5 no capability method keeps state between requests in a mutable default argument that it changes or hands out",
     ],
-    "does_not_decide": ["reply values against a reference model over whole histories", "clock formats", "text/number id equality in Python dict lookups"],
+    "does_not_decide": ["reply values against a reference model over whole histories", "clock values (the format of the Clock variable is decided by its reviewed model, C13.M1)", "text/number id equality in Python dict lookups"],
     "assumptions": ["StreamsFunctions.decode returns the request's items in wire order (C03)"],
 }
 
